@@ -291,6 +291,32 @@ def run(run):
                               "command would answer as if the device had replied and the comm-issue flag would never be set, so the next request "
                               "goes out on the dead link without a reconnection")
     run.floor("R5", "device-touching dongle methods", n_d, 25)
+    # ... from every call site, not just from some: no call that can raise them sits under a handler that catches without re-raising
+    n_cs = 0
+    for q in sorted(dev):
+        f_ = P.functions.get(q)
+        if f_ is None or f_.cls is None or not any(f_.cls in dc.mro() or dc in f_.cls.mro() for dc in dongle_classes(run)) or isinstance(f_.node, ast.Lambda):
+            continue
+        par_ = None
+        for sc_ in [dc for dc in dongle_classes(run) if f_.cls in dc.mro()][:1] or [f_.cls]:
+            for call, cs in A.callees(f_, sc_):
+                for exc in ("HSM2DongleCommError", "HSM2DongleTimeoutError"):
+                    if not any(c.fn is not None and exc in E.esc(c.fn, c.self_cls) for c in cs):
+                        continue
+                    n_cs += 1
+                    par_ = par_ if par_ is not None else _parents(f_.node)
+                    tr_, h_ = catching_handler(E, par_, call, f_, sc_, exc)
+                    if h_ is None:
+                        continue
+                    last = h_.body[-1] if h_.body else None
+                    okr = isinstance(last, ast.Raise) and (last.exc is None or (isinstance(last.exc, ast.Call) and norm(last.exc.func) == exc)
+                                                           or (isinstance(last.exc, ast.Name) and last.exc.id == h_.name))
+                    okf = bool(tr_.finalbody) and isinstance(tr_.finalbody[-1], ast.Raise)
+                    run.check("R5", okr or okf, f"{f_.qualname}: {exc} from `{norm(call.func)[:40]}` is not absorbed", key=f"{f_.qualname}|{exc}|absorbed-at|{norm(call.func)[:40]}",
+                              where=f_.loc(h_), message=f"in {f_.qualname} the call `{norm(call)[:50]}` can raise {exc} but sits under `except "
+                              f"{norm(h_.type) if h_.type is not None else ''}`, which does not re-raise it: the command answers with an ordinary result code, the "
+                              "comm-issue flag is never set and the next request goes out on the dead link")
+    run.floor("R5", "call sites in the dongle layer from which a link failure / time-out can come", n_cs, 40)
     gi_ = A.cfg(init, V2)
     par_i = _parents(init.node)
     for cc in find_calls(A, init, "connect"):
@@ -307,6 +333,40 @@ def run(run):
         run.check("R5", okc, "a failing connect() leaves bring-up as HSM2ProtocolError", key="initialize_device|connect-failure|class", where=init.loc(cc),
                   message=f"when connect() fails during (re)bring-up, {why}: ensure_connection only converts HSM2ProtocolError into HSM2DongleCommError, so a failed "
                           "reconnection would escape the request (manager stops) instead of being answered device-unreachable and retried")
+
+    # in the protocol layer a link failure is either answered device-unreachable with the flag set (command methods, R1), re-raised / converted, or - the
+    # one expected case - the disconnection that exit_app() provokes on purpose; no other handler may absorb it (closed world over all handlers)
+    n_h = 0
+    seen_m = set()
+    for pc in protocol_classes(run):
+        for c_ in pc.mro():
+            for mname, m in sorted(getattr(c_, "methods", {}).items()):
+                if m.qualname in seen_m or not m.module.name.startswith("ledger."):
+                    continue
+                seen_m.add(m.qualname)
+                for tr in [n for n in A.own_nodes(m) if isinstance(n, ast.Try)]:
+                    raising = [c for st_ in tr.body for c in ast.walk(st_) if isinstance(c, ast.Call)
+                               and any(cs.fn is not None and "HSM2DongleCommError" in E.esc(cs.fn, cs.self_cls) for cs in A.resolve_call(c, m, pc))]
+                    if not raising:
+                        continue
+                    for h in tr.handlers:
+                        if not any(E.is_sub("HSM2DongleCommError", hn) for hn in E.class_names_of(h.type, m, pc)):
+                            continue
+                        n_h += 1
+                        last = h.body[-1] if h.body else None
+                        ends_raise = isinstance(last, ast.Raise) or (isinstance(last, ast.Expr) and isinstance(last.value, ast.Call) and A.is_noreturn_call(last.value, m, pc))
+                        flags = bool(_sets_flag(run, h, m, pc, V2))
+                        ends_raise = ends_raise or (bool(tr.finalbody) and isinstance(tr.finalbody[-1], ast.Raise))
+                        # leaving an app / the menu makes the device drop off the bus on purpose: that disconnection is expected and followed by a reconnection
+                        expected = all(call_name(c) in ("exit_app", "exit_menu") for c in raising) and all(isinstance(x, ast.Pass) for x in h.body)
+                        run.check("R5", ends_raise or flags or expected, f"{m.qualname}: the handler over {sorted({call_name(c) for c in raising})} does not absorb a link failure",
+                                  key=f"{m.qualname}|absorbs-link-failure|{','.join(sorted({call_name(c) or '?' for c in raising}))[:50]}", where=m.loc(h),
+                                  message=f"in {m.qualname} a link failure raised by {sorted({call_name(c) for c in raising})} is caught by `except {norm(h.type) if h.type is not None else ''}` "
+                                          "which neither sets the comm-issue flag, nor re-raises: the caller goes on as if the device were connected and the next "
+                                          "request is sent on a dead link without reconnection")
+                        # a handler that may be left normally inside a loop retries silently and then falls out of the loop
+                        # (covered by the same condition: it must flag or raise on every way out)
+    run.floor("R5", "link-failure handlers in the protocol layer", n_h, 10)
 
     # -------------------------------------------------------------- R3
     run.rule("R3", "_comm_issue is written True only inside HSM2DongleCommError handlers and in "
